@@ -146,7 +146,7 @@ func c17RunProfExec(r *h.Result, c *c17ProfExecCase) (op, impl string, err error
 	var parts []string
 	for _, s := range c.Selectors {
 		sels = append(sels, parser.Selector{Name: s.Name, Op: s.Type, Val: parser.Str{Str: strconv.Quote(s.Value)}})
-		parts = append(parts, c17OpName(s.Type)+":"+h.Hex([]byte(s.Name))+":"+h.Hex([]byte(s.Value)))
+		parts = append(parts, c17SelectorArg(c17E2EMatcher{Type: s.Type, Name: h.Hex([]byte(s.Name)), Value: h.Hex([]byte(s.Value))}))
 	}
 	ctx := shared.PlannerContext{From: time.Unix(c.From, 0), To: time.Unix(c.To, 0), Ctx: context.Background(), ProfilesSeriesGinTable: "profiles_series_gin"}
 	q, err := (&proftr.StreamSelectorPlanner{Selectors: sels}).Process(&ctx)
